@@ -1013,6 +1013,26 @@ fn c05(ix: &Ix, f: &mut Findings) {
         } else {
             (true, None, stop.map(|s| s.1).unwrap_or(false), None, true)
         };
+        // killed, judged by the cause and not by what on_stop was told: a kill() that had returned before on_stop began
+        // (and that no on_run error pre-empted) ended the actor; no kill() call at all before the end means it did not
+        if let (Some(k), Some((c, _, _))) = (sum.killed, x.stop_enter.first()) {
+            f.o("C05.killed");
+            let started_before = x.kills.iter().any(|op| ix.ops[op].s < *c);
+            let returned_before = x.kills.iter().filter_map(|op| ix.ops[op].end.as_ref().map(|e| e.0)).filter(|e| e < c).min();
+            if k && !started_before {
+                f.v("C05.killed", Some(a), format!("actor {a}: the result says killed=true but no kill() had been called before on_stop began"));
+            }
+            if !k {
+                if let Some(kp) = returned_before {
+                    let run_err_between = x.run_done.iter().any(|r| r.2 == Out::Err && r.0 > kp && r.0 < *c);
+                    let strict = ix.sim() || (x.stops.is_empty() && x.run_err().is_none());
+                    let others_could_end = !ix.sim() && ix.log[..*c].iter().any(|e| matches!(&e.k, K::RefOp { actor, model: 0, .. } if *actor == a));
+                    if strict && !run_err_between && !others_could_end {
+                        f.v("C05.killed", Some(a), format!("actor {a}: kill() had returned at log position {kp}, before on_stop began at {c} (no on_run error in between), yet the result says killed=false"));
+                    }
+                }
+            }
+        }
         let got = (sum.completed, sum.phase.as_deref(), sum.killed, sum.err.clone(), sum.has_actor);
         let exp = (Some(exp_completed), exp_phase, Some(exp_killed), exp_err.clone(), Some(exp_actor));
         if got != exp {
